@@ -78,4 +78,114 @@ def pureVer (sk : SkelMap) (i : Nat) : Ver :=
   | none => .tup []
 termination_by i
 
+def dcurList (f : Nat → Ver → Option (List View)) : List Nat → List Ver → Option (List View)
+  | [], [] => some []
+  | c :: cs, v :: vs =>
+    match f c v, dcurList f cs vs with
+    | some a, some b => some (a ++ b)
+    | _, _ => none
+  | _, _ => none
+
+/-- the content named by the version value `v` of object `i`, provided `v` is current for every
+    registry it mentions; dynamic wrappers are followed through the target recorded *in `v`* -/
+def dcur (ρ : Nat → Bool) (sk : SkelMap) (i : Nat) (v : Ver) : Option (List View) :=
+  match sk i with
+  | some (.kb bs ver) =>
+    match v with
+    | .num m => if m = ver then some (bs.map (viewOf ρ)) else none
+    | _ => none
+  | some (.cond c flt) =>
+    if _h : c < i then (dcur ρ sk c v).map (·.map (View.gate (flt.eval ρ))) else none
+  | some (.glob c) => if _h : c < i then (dcur ρ sk c v).map (·.filter (·.glb)) else none
+  | some (.merged cs) =>
+    match v with
+    | .tup vs => dcurList (fun c x => if _h : c < i then dcur ρ sk c x else none) cs vs
+    | _ => none
+  | some (.dyn _) =>
+    match v with
+    | .dyn t v' =>
+      if t = i then (match v' with | .num 0 => some [] | _ => none)
+      else if _h : t < i then dcur ρ sk t v' else none
+    | _ => none
+  | none => none
+termination_by i
+
+def bndList (f : Nat → Ver → Prop) : List Nat → List Ver → Prop
+  | [], [] => True
+  | c :: cs, v :: vs => f c v ∧ bndList f cs vs
+  | _, _ => False
+
+/-- `v` has the shape of a version of object `i` and mentions no registry version of the future -/
+def Bnd (sk : SkelMap) (i : Nat) (v : Ver) : Prop :=
+  match sk i with
+  | some (.kb _ ver) =>
+    match v with
+    | .num m => m ≤ ver
+    | _ => False
+  | some (.cond c _) => if _h : c < i then Bnd sk c v else False
+  | some (.glob c) => if _h : c < i then Bnd sk c v else False
+  | some (.merged cs) =>
+    match v with
+    | .tup vs => bndList (fun c x => if _h : c < i then Bnd sk c x else False) cs vs
+    | _ => False
+  | some (.dyn _) =>
+    match v with
+    | .dyn t v' => if t = i then v' = .num 0 else if _h : t < i then Bnd sk t v' else False
+    | _ => False
+  | none => False
+termination_by i
+
+/-- children exist and come before their parents -/
+def WFSkel (i : Nat) (sk : SkelMap) : Skel → Prop
+  | .kb _ _ => True
+  | .cond c _ => c < i ∧ (sk c).isSome
+  | .merged cs => ∀ c ∈ cs, c < i ∧ (sk c).isSome
+  | .dyn (some t) => t < i ∧ (sk t).isSome
+  | .dyn none => True
+  | .glob c => c < i ∧ (sk c).isSome
+
+def WFsk (sk : SkelMap) : Prop := ∀ i s, sk i = some s → WFSkel i sk s
+
+/-! ### the current version names the current content -/
+
+theorem dcur_pureVer (ρ : Nat → Bool) (sk : SkelMap) (wf : WFsk sk) (i : Nat) (hi : (sk i).isSome) :
+    dcur ρ sk i (pureVer sk i) = some (flatV ρ sk i) := by
+  induction i using Nat.strongRecOn with
+  | ind i ih =>
+    cases hs : sk i with
+    | none => simp [hs] at hi
+    | some s =>
+      have hw := wf i s hs
+      rw [dcur, pureVer, flatV]
+      cases s with
+      | kb bs ver => simp [hs]
+      | cond c flt =>
+        simp only [WFSkel] at hw
+        simp [hs, hw.1, ih c hw.1 hw.2]
+      | glob c =>
+        simp only [WFSkel] at hw
+        simp [hs, hw.1, ih c hw.1 hw.2]
+      | dyn t =>
+        cases t with
+        | none => simp [hs]
+        | some t =>
+          simp only [WFSkel] at hw
+          have : t ≠ i := Nat.ne_of_lt hw.1
+          simp [hs, hw.1, this, ih t hw.1 hw.2]
+      | merged cs =>
+        simp only [WFSkel] at hw
+        simp only [hs]
+        have key : ∀ (l : List Nat), (∀ c ∈ l, c < i ∧ (sk c).isSome) →
+            dcurList (fun c x => if _h : c < i then dcur ρ sk c x else none) l
+              (l.map fun c => if _h : c < i then pureVer sk c else .tup []) =
+            some (l.flatMap fun c => if _h : c < i then flatV ρ sk c else []) := by
+          intro l hl
+          induction l with
+          | nil => simp [dcurList]
+          | cons c l ihl =>
+            have hc := hl c (List.mem_cons_self ..)
+            have := ihl (fun x hx => hl x (List.mem_cons_of_mem _ hx))
+            simp [dcurList, hc.1, ih c hc.1 hc.2, this]
+        exact key cs hw
+
 end Ptk.C04
